@@ -531,8 +531,29 @@ func genBlock(r *rng, idx int) srvCase {
 		}
 	}
 	phase()
+	// queries still in flight when the blocklist changes: the reply of a newly blocked address
+	var inflight []func()
+	if !early {
+		for _, a := range all {
+			a := a
+			qid++
+			my := qid
+			id := idInBucket(r, root, r.intn(4))
+			c.evs = append(c.evs, sev{kind: "qstart", qid: my, src: a, q: "find_node", rated: true, args: krpc.MsgArgs{Target: root}})
+			inflight = append(inflight, func() {
+				e := sev{kind: "pkt", src: a}
+				e.dyn = func(st *srvState, e *sev) {
+					e.msg = &krpc.Msg{Y: "r", T: st.qt[my], R: &krpc.Return{ID: id}}
+				}
+				c.evs = append(c.evs, e, sev{kind: "qend", qid: my})
+			})
+		}
+	}
 	if !early {
 		c.evs = append(c.evs, sev{kind: "setbl", bl: bl})
+		for _, f := range inflight {
+			f()
+		}
 	} else if r.bool() {
 		c.evs = append(c.evs, sev{kind: "setbl", bl: nil})
 	}
